@@ -446,6 +446,12 @@ func coordinate(r *ev.Run, scenarios []Scenario, finish func(r *ev.Run)) {
 	} else {
 		r.Set("per_scenario", per)
 	}
+	if b, err := os.ReadFile(ev.Root() + "/.work/litmus.json"); err == nil {
+		var lj map[string]any
+		if json.Unmarshal(b, &lj) == nil {
+			r.Set("shim_conformance_litmus", lj)
+		}
+	}
 	if capped > 0 {
 		r.MarkCapped()
 	}
